@@ -1,5 +1,5 @@
 ----------------------------- MODULE MC_Fanout -----------------------------
-EXTENDS Fanout, Json
+EXTENDS Fanout, Json, SequencesExt
 RECURSIVE SeqsUpTo(_, _)
 SeqsUpTo(Chars, n) == IF n = 0 THEN {<<>>}
                       ELSE LET S == SeqsUpTo(Chars, n - 1)
@@ -8,6 +8,8 @@ Chains3 == SeqsUpTo({"A", "N", "R"}, 3)
 Chains2 == SeqsUpTo({"A", "N", "R"}, 2)
 Att2 == { <<1, 2>>, <<2, 1, 2>> }
 Att3 == { <<1, 2, 3>>, <<3, 1, 3, 2>> }
+\* dropping the unbuildable entries of a declared chain gives back the chain, wherever they sat
+ASSUME \A c \in Chains3 : \A p \in 1..Len(c) + 1 : Effective(InsertAt(c, p, "X")) = c /\ Effective(Append(InsertAt(c, p, "X"), "X")) = c
 Case == [chains |-> [a \in Apps |-> chain[a]], outc |-> [a \in Apps |-> outc[a]], att |-> att,
          delivered |-> [a \in Apps |-> delivered[a]], consulted |-> [a \in Apps |-> consulted[a]],
          handled |-> handled, flushed |-> [a \in Apps |-> flushed[a]]]
